@@ -248,7 +248,8 @@ claim("C02",
       "(GE/Thm/C02Writer.lean) over the model of the JavaScript writers of proc_gen/mod.rs (GE/Model/JsWriter.lean: separator flag, hoisted var lists, nested function / block scopes, "
       "the two counters with extend / align, nested top-scope writers): for EVERY tree of writer operations that the counter monitor accepts, no identifier handed out equals one that is "
       "visible where it is used — no duplicate arrow-function parameter (a SyntaxError), no captured outer variable, hoisted declarations usable where requested; the model is replayed on the "
-      "operations the real generators performed (hook writer_trace) and must reproduce the artefact text and every counter, and the monitor must accept the run (corr:js-writer). Models tied by "
+      "operations the real generators performed (hook writer_trace) and must reproduce the artefact text and every counter, and the monitor must accept the run (corr:js-writer). root_declared_increasing / root_names_nodup (GE/Thm/C02WriterMono.lean), with no monitor at all: the "
+      "identifiers declared at the level of an artefact's own top-scope writer are handed out in strictly increasing order, so no name is declared twice there, for every tree of operations. Models tied by "
       "exhaustive identifier correspondence and byte-equality streams. Oracle: V8 parses (sloppy+strict) every artefact of generated, hostile-named, mutated and large templates.",
       "Trusted: Lean kernel; axioms ⊆ {propext, Classical.choice, Quot.sound}; Spec/JsLex, JsGrammar, JsString; extractors; V8. The rest of the statement skeleton of the tag-level "
       "generator and the final step derivable⇒parsable are covered by the oracle only.",
